@@ -54,6 +54,7 @@ func init() {
 	pt := profGeneral
 	pt.twin = true
 	pt.wReset = 14
+	pt.wParseNil = 10
 	pt.maxOps = 60
 	pt.stream = 160 // short stream, replayed often: n-grams recur at shifted positions
 	pt.badCfgPct = 0
